@@ -48,6 +48,7 @@ def gen_program(r, i):
             t = eg.lit_int()
         stmts.append(programs.LOG("e%d" % j, convert_expr(t)))
     stmts.append(("call", programs.V("println"), [("pos", programs.S("out: é 'q' \"d\" # not a comment"))]))
+    stmts.append(programs.LOG("odd-chars", programs.S(r.choice(["a\x0cb", "x\x0by", "p\x85q", "l\u2028s", "r\r\nn", "fs\x1cgs\x1d", "t\tt"]))))
     return "operators", ("seq", stmts)
 
 
